@@ -51,6 +51,10 @@ def plan(tier, seed):
     for s in range(nr):
         jobs.append({"variant": cv, "part": "random", "shard": s, "nshards": nr, "params": {"n": 60000 if thorough else 12000}})
     jobs.append({"variant": cv, "part": "ascii", "params": {}})
+    # the compiled quoters called from several threads at once (long outputs that leave the static buffer next to short ones):
+    # every result is still the pure-Python result
+    for s in range(2 if not thorough else 6):
+        jobs.append({"variant": "c", "part": "shared", "shard": s, "nshards": 6, "params": {"threads": 4 + 2 * (s % 3), "n": 4000 if thorough else 900}})
     if thorough:
         for s in range(16):
             jobs.append({"variant": "c", "part": "allcp", "shard": s, "nshards": 16, "params": {}})
@@ -129,7 +133,41 @@ def run(ctx):
         run_boundary(ctx, pairs)
     elif part == "random":
         run_random(ctx, pairs)
+    elif part == "shared":
+        run_shared(ctx, pairs)
     _shim_summary(ctx)
+
+
+SHARED_INPUTS = ["a" * 9000 + " €", "é" * 3000, "b b", "%2f" * 3000, "x" * 8191 + "é", " " * 9000, "short/é?&=+;", "a" * 16384 + " ", "q" * 24575 + "%zz", "%C3%A9" * 1500, "k=v&" * 2500, "😀" * 2100,
+                 "%e2%82%ac" * 1000, "~" * 8192, "\x7f" * 2800, "", "%", "a" * 8190 + "%4"]
+
+
+def run_shared(ctx, pairs):
+    """Differential under threads: the expected value of every (configuration, input) is computed beforehand by the pure-Python
+    implementation in one thread; then k threads call the COMPILED implementations concurrently, rotating over configurations and
+    inputs from different offsets (a long output that grows out of the static buffer overlaps short calls of other threads)."""
+    exp = {}
+    for pi, p in enumerate(pairs):
+        for si, s_ in enumerate(SHARED_INPUTS):
+            exp[pi, si] = guarded(p[3], s_)
+    n = ctx.params["n"]
+
+    def body(rec, tid):
+        for it in range(n):
+            pi = (it // len(SHARED_INPUTS) + tid) % len(pairs)
+            si = (it * 5 + tid * 3) % len(SHARED_INPUTS)
+            name, kind, kw, pyq, cq = pairs[pi]
+            s_ = SHARED_INPUTS[si]
+            a, b = exp[pi, si], guarded(cq, s_)
+            rec.ev((name, "shared", si, tid % 2))
+            rec.count("shared_calls")
+            if a != b or type(a) is not type(b):
+                rec.fail("quoter_diff", {"config": name, "kind": kind, "kwargs": kw, "input_len": len(s_), "input_head": s_[:40], "input_tail": s_[-40:], "part": "shared", "threads": ctx.params["threads"]},
+                         f"under {ctx.params['threads']} threads: py={_clip(a)} c={_clip(b)}", py=jsonable(_clipv(a)), c=jsonable(_clipv(b)), _input=s_, _py=a, _c=b)
+                return
+
+    ctx.threaded(ctx.params["threads"], body, switch=1e-6)
+    ctx.count("shared_thread_runs")
 
 
 def run_kernel(ctx, pairs):
